@@ -132,7 +132,7 @@ theorem walkFwd_from (items : List (Bytes × V)) (hs : SortedItems items) (hne :
     intro i e h hle
     have hene : e.1 ≠ [] := hne e (List.mem_of_getElem? h)
     have hlim0 : limit ≠ 0 := by omega
-    simp only [walkFwd, pageFwd, paginate, pageByKey, hene, ne_eq, not_false_eq_true, and_true, hlim0, if_false,
+    simp only [walkFwd, pageFwd, paginate, pageByKey, keyAt, hene, ne_eq, not_false_eq_true, and_true, hlim0, if_false,
       iterFrom, Bool.not_false, if_true, Bool.false_eq_true, Nat.lt_irrefl, gt_iff_lt]
     rw [filter_ge_eq_drop items hs i e h]
     simp only [List.getElem?_drop, List.drop_drop]
@@ -162,7 +162,7 @@ theorem walkFwd_complete (items : List (Bytes × V)) (hs : SortedItems items) (h
   have hlim : limit < 18446744073709551616 := by omega
   have hlim0 : limit ≠ 0 := by omega
   have hw : wrap64 limit = limit := Nat.mod_eq_of_lt hlim
-  simp only [walkFwd, pageFwd, paginate, pageByOffset, ne_eq, not_true_eq_false, and_false, if_false, hlim0,
+  simp only [walkFwd, pageFwd, paginate, pageByOffset, keyAt, ne_eq, not_true_eq_false, and_false, if_false, hlim0,
     iterFrom, Bool.not_false, if_true, Nat.zero_add, hw, List.drop_zero, Nat.sub_zero]
   have hcond : limit + 1 < 18446744073709551616 ∧ 0 < limit + 1 := ⟨hlim1, by omega⟩
   simp only [hcond, and_self, if_true]
@@ -181,6 +181,208 @@ theorem walkFwd_complete (items : List (Bytes × V)) (hs : SortedItems items) (h
       have : items.length ≤ items.length * limit := Nat.le_mul_of_pos_right _ hl
       omega)]
     simp only [Option.map_some, List.take_append_drop]
+
+/-! ### Offset-style pages -/
+
+/-- the iteration order of a listing: ascending, or descending with `reverse` -/
+def ordered (items : List (Bytes × V)) (rev : Bool) : List (Bytes × V) := if rev then items.reverse else items
+
+theorem iterFrom_nil (items : List (Bytes × V)) (rev : Bool) : iterFrom items [] rev = .ok (ordered items rev) := by
+  unfold iterFrom ordered; cases rev <;> simp
+
+/-- **An offset page is exactly that slice of the listing** (either direction, with or without `count_total`),
+and `next_key` is the key of the entry right after the slice. -/
+theorem offset_page_eq (items : List (Bytes × V)) (o l : Nat) (ct rev : Bool) (hl : 0 < l)
+    (hlim : o + l + 1 < 18446744073709551616) :
+    paginate items { offset := o, limit := l, countTotal := ct, reverse := rev } =
+      .ok (((ordered items rev).drop o).take l,
+        { nextKey := keyAt (ordered items rev) (o + l),
+          total := if ct then items.length else 0 }) := by
+  have hl0 : l ≠ 0 := by omega
+  have hw : wrap64 (o + l) = o + l := Nat.mod_eq_of_lt (by omega)
+  simp only [paginate, pageByOffset, iterFrom_nil, ne_eq, not_true_eq_false, and_false, if_false, hl0, hw]
+  have hc : o + l + 1 < 18446744073709551616 ∧ o < o + l + 1 := ⟨hlim, by omega⟩
+  simp only [hc, and_self, if_true, Nat.add_sub_cancel_left]
+  congr 2
+  cases rev <;> simp [ordered]
+
+/-- **Walking by offset** (`offset = 0, l, 2l, …`) returns consecutive slices: the first `k` pages together are
+the first `k·l` entries of the listing, so `⌈n / l⌉` pages are the whole listing, each entry once, in order. -/
+theorem offset_pages_concat (L : List (Bytes × V)) (l : Nat) :
+    ∀ k, ((List.range k).map fun j => (L.drop (j * l)).take l).flatten = L.take (k * l) := by
+  intro k
+  induction k with
+  | zero => simp
+  | succ k ih =>
+    rw [List.range_succ, List.map_append, List.flatten_append, ih]
+    simp only [List.map_cons, List.map_nil, List.flatten_cons, List.flatten_nil, List.append_nil]
+    rw [Nat.succ_mul, List.take_add]
+
+theorem offset_walk_complete (L : List (Bytes × V)) (l k : Nat) (hk : L.length ≤ k * l) :
+    ((List.range k).map fun j => (L.drop (j * l)).take l).flatten = L := by
+  rw [offset_pages_concat, List.take_of_length_le hk]
+
+/-! ### Reverse walk by `next_key` -/
+
+theorem filter_lt_eq_take (items : List (Bytes × V)) (hs : SortedItems items) :
+    ∀ (i : Nat) (e : Bytes × V), items[i]? = some e →
+      items.filter (fun x => Bytes.lt x.1 e.1) = items.take i := by
+  induction items with
+  | nil => intro i e h; simp at h
+  | cons a l ih =>
+    intro i e h
+    unfold SortedItems at hs ih
+    simp only [List.map_cons, List.pairwise_cons] at hs
+    cases i with
+    | zero =>
+      simp at h; subst h
+      simp only [List.filter_cons, Bytes.lt_irrefl, Bool.false_eq_true, if_false, List.take_zero]
+      rw [List.filter_eq_nil_iff]
+      intro x hx
+      have := hs.1 x.1 (List.mem_map.mpr ⟨x, hx, rfl⟩)
+      simp [Bytes.lt_asymm _ _ this]
+    | succ i =>
+      simp at h
+      have hk : e ∈ l := List.mem_of_getElem? h
+      have hlt : Bytes.lt a.1 e.1 = true := hs.1 e.1 (List.mem_map.mpr ⟨e, hk, rfl⟩)
+      simp only [List.filter_cons, hlt, if_true, List.take_succ_cons]
+      congr 1
+      exact ih hs.2 i e h
+
+/-- In reverse mode, starting from the key of a non-last entry `items[i]` yields the entries `items[i], items[i-1],
+…, items[0]`.  (Started from the key of the *last* entry the SDK panics: F14, `Properties/C17`.) -/
+theorem iterFrom_reverse_key (items : List (Bytes × V)) (hs : SortedItems items) (hne : ∀ e ∈ items, e.1 ≠ [])
+    (i : Nat) (e e2 : Bytes × V) (h : items[i]? = some e) (h2 : items[i + 1]? = some e2) :
+    iterFrom items e.1 true = .ok (items.take (i + 1)).reverse := by
+  have hene : e.1 ≠ [] := hne e (List.mem_of_getElem? h)
+  unfold iterFrom
+  simp only [Bool.not_true, Bool.false_eq_true, if_false, hene]
+  rw [filter_ge_eq_drop items hs i e h]
+  have hi : i < items.length := (List.getElem?_eq_some_iff.mp h).1
+  have hi2 : i + 1 < items.length := (List.getElem?_eq_some_iff.mp h2).1
+  have hd : items.drop i = e :: e2 :: items.drop (i + 2) := by
+    rw [List.drop_eq_getElem_cons hi, List.drop_eq_getElem_cons hi2]
+    have e1 : items[i] = e := by rw [List.getElem?_eq_getElem hi] at h; exact Option.some.inj h
+    have e2' : items[i + 1] = e2 := by rw [List.getElem?_eq_getElem hi2] at h2; exact Option.some.inj h2
+    rw [e1, e2']
+  rw [hd]
+  simp only
+  rw [filter_lt_eq_take items hs (i + 1) e2 h2]
+
+/-- follow `next_key` in reverse until it is empty -/
+def walkRev (items : List (Bytes × V)) (limit : Nat) : Nat → Bytes → Option (List (Bytes × V))
+  | 0, _ => none
+  | fuel+1, start =>
+    match paginate items { key := start, limit := limit, reverse := true } with
+    | .ok (res, page) =>
+      if page.nextKey = [] then some res
+      else (walkRev items limit fuel page.nextKey).map (res ++ ·)
+    | _ => none
+
+/-- one reverse page started at the key of `items[i]` (not the last entry) -/
+theorem reverse_page_from (items : List (Bytes × V)) (hs : SortedItems items) (hne : ∀ e ∈ items, e.1 ≠ [])
+    (limit : Nat) (hl : 0 < limit) (i : Nat) (e e2 : Bytes × V) (h : items[i]? = some e) (h2 : items[i + 1]? = some e2) :
+    paginate items { key := e.1, limit := limit, reverse := true } =
+      .ok (((items.take (i + 1)).reverse).take limit,
+        { nextKey := keyAt ((items.take (i + 1)).reverse) limit, total := 0 }) := by
+  have hene : e.1 ≠ [] := hne e (List.mem_of_getElem? h)
+  have hl0 : limit ≠ 0 := by omega
+  simp only [paginate, pageByKey, hene, ne_eq, not_false_eq_true, and_true, Nat.lt_irrefl, gt_iff_lt, if_false, hl0,
+    if_true, iterFrom_reverse_key items hs hne i e e2 h h2]
+
+theorem walkRev_from (items : List (Bytes × V)) (hs : SortedItems items) (hne : ∀ e ∈ items, e.1 ≠ [])
+    (limit : Nat) (hl : 0 < limit) :
+    ∀ (fuel i : Nat) (e e2 : Bytes × V), items[i]? = some e → items[i + 1]? = some e2 → i + 1 ≤ fuel * limit →
+      walkRev items limit fuel e.1 = some (items.take (i + 1)).reverse := by
+  intro fuel
+  induction fuel with
+  | zero => intro i e e2 _ _ hle; omega
+  | succ fuel ih =>
+    intro i e e2 h h2 hle
+    have hi2 : i + 1 < items.length := (List.getElem?_eq_some_iff.mp h2).1
+    simp only [walkRev, reverse_page_from items hs hne limit hl i e e2 h h2, keyAt]
+    -- R = reverse (take (i+1)) has length i+1; entry `limit` of it is items[i - limit]
+    have hlenR : ((items.take (i + 1)).reverse).length = i + 1 := by
+      simp [List.length_take]; omega
+    cases hn : ((items.take (i + 1)).reverse)[limit]? with
+    | none =>
+      have : i + 1 ≤ limit := by
+        rcases Nat.lt_or_ge limit (i + 1) with hlt | hge
+        · rw [List.getElem?_eq_getElem (by rw [hlenR]; exact hlt)] at hn; cases hn
+        · exact hge
+      simp only [if_true]
+      rw [List.take_of_length_le (by rw [hlenR]; exact this)]
+    | some x =>
+      have hlt : limit < i + 1 := by
+        have := (List.getElem?_eq_some_iff.mp hn).1; rw [hlenR] at this; exact this
+      -- x = items[i - limit], and it is not the last entry
+      have hx : items[i - limit]? = some x := by
+        have hx0 := hn
+        rw [List.getElem?_reverse (by rw [List.length_take]; omega)] at hx0
+        rw [List.length_take, Nat.min_eq_left (by omega)] at hx0
+        rw [List.getElem?_take] at hx0
+        have : i + 1 - 1 - limit = i - limit := by omega
+        rw [this] at hx0
+        simp only [show i - limit < i + 1 by omega, if_true] at hx0
+        exact hx0
+      have hxne : x.1 ≠ [] := hne x (List.mem_of_getElem? hx)
+      simp only [hxne, if_false]
+      have hnext : ∃ y, items[i - limit + 1]? = some y := by
+        have : i - limit + 1 < items.length := by omega
+        exact ⟨items[i - limit + 1], List.getElem?_eq_getElem this⟩
+      obtain ⟨y, hy⟩ := hnext
+      rw [ih (i - limit) x y hx hy (by
+        have : (fuel + 1) * limit = fuel * limit + limit := Nat.succ_mul _ _
+        omega)]
+      simp only [Option.map_some, Option.some.injEq]
+      -- take limit R ++ reverse (take (i - limit + 1)) = R
+      have hsplit : (items.take (i + 1)).reverse =
+          ((items.take (i + 1)).reverse).take limit ++ (items.take (i - limit + 1)).reverse := by
+        conv => lhs; rw [← List.take_append_drop limit ((items.take (i + 1)).reverse)]
+        congr 1
+        rw [List.drop_reverse, List.length_take, Nat.min_eq_left (by omega), List.take_take,
+          Nat.min_eq_left (by omega)]
+        congr 2; omega
+      exact hsplit.symm
+
+/-- **Reverse walk completeness.**  Starting without a key in reverse mode and following `next_key` with any
+page size returns the whole listing in descending order, each entry once — and never sends the key of the
+last entry, the one request on which the SDK's reverse iterator panics (F14). -/
+theorem walkRev_complete (items : List (Bytes × V)) (hs : SortedItems items) (hne : ∀ e ∈ items, e.1 ≠ [])
+    (limit : Nat) (hl : 0 < limit) (hlim1 : limit + 1 < 18446744073709551616) :
+    walkRev items limit (items.length + 1) [] = some items.reverse := by
+  have hpage := offset_page_eq items 0 limit false true hl (by omega)
+  simp only [Nat.zero_add, ordered, if_true, List.drop_zero] at hpage
+  have hreq : ({ key := [], limit := limit, reverse := true } : PageRequest) =
+      { offset := 0, limit := limit, countTotal := false, reverse := true } := rfl
+  simp only [walkRev, hreq, hpage, keyAt]
+  cases hn : items.reverse[limit]? with
+  | none =>
+    have hlen : items.length ≤ limit := by
+      rcases Nat.lt_or_ge limit items.length with hlt | hge
+      · rw [List.getElem?_eq_getElem (by simpa using hlt)] at hn; cases hn
+      · exact hge
+    simp [List.take_of_length_le (show items.reverse.length ≤ limit by simpa using hlen)]
+  | some x =>
+    have hlt : limit < items.length := by
+      have := (List.getElem?_eq_some_iff.mp hn).1; simpa using this
+    have hx : items[items.length - 1 - limit]? = some x := by
+      rw [List.getElem?_reverse (by omega)] at hn; exact hn
+    have hxne : x.1 ≠ [] := hne x (List.mem_of_getElem? hx)
+    simp only [hxne, if_false]
+    have hnext : ∃ y, items[items.length - 1 - limit + 1]? = some y :=
+      ⟨items[items.length - 1 - limit + 1]'(by omega), List.getElem?_eq_getElem (by omega)⟩
+    obtain ⟨y, hy⟩ := hnext
+    rw [walkRev_from items hs hne limit hl items.length (items.length - 1 - limit) x y hx hy (by
+      have : items.length ≤ items.length * limit := Nat.le_mul_of_pos_right _ hl
+      omega)]
+    simp only [Option.map_some, Option.some.injEq]
+    conv => rhs; rw [← List.take_append_drop limit items.reverse]
+    congr 1
+    rw [List.drop_reverse]
+    congr 2; omega
+
+example : walkRev [([1], 10), ([2], 20), ([3], 30)] 2 4 [] = some [([3], 30), ([2], 20), ([1], 10)] := by decide
 
 example : walkFwd [([1], 10), ([2], 20), ([3], 30)] 2 4 [] = some [([1], 10), ([2], 20), ([3], 30)] := by decide
 
